@@ -3,6 +3,7 @@
 package json
 
 import (
+	"math"
 	"bytes"
 	stdjson "encoding/json"
 
@@ -367,7 +368,25 @@ func H_TB_rec(t *verifrt.T) {
 		// acyclic values nested beyond the depth at which cycle detection starts (1000 frames):
 		// a recursive struct list and nested []interface{}; encoding must still succeed
 		const n = 1003
-		dk := t.Choice("deep-kind", 3)
+		dk := t.Choice("deep-kind", 4)
+		if dk == 3 {
+			// an encoding that FAILS below the cycle-detection depth (a NaN at the end of the list)
+			// must not leave anything behind: the repaired value encodes (the pool hands the
+			// context of the failed call to the next one when POOLREUSE=1)
+			root := &vtNanNode{}
+			cur := root
+			for i := 0; i < n; i++ {
+				cur.Next = &vtNanNode{}
+				cur = cur.Next
+			}
+			cur.F = math.NaN()
+			_, err := Marshal(root)
+			t.Assert("non-finite-float-is-an-error", err != nil)
+			cur.F = 1
+			out, err := Marshal(root)
+			t.Assert("encodes-after-a-failed-encoding", verifrt.And(err == nil, len(out) > 2*n))
+			return
+		}
 		if dk == 2 {
 			// a value reached twice (a DAG, not a cycle) below the depth at which cycle detection
 			// starts: nil interfaces inside it must not be taken for a cycle
@@ -408,6 +427,11 @@ func H_TB_rec(t *verifrt.T) {
 		return
 	}
 	checkMarshal(t, head, refRec(nil, head))
+}
+
+type vtNanNode struct {
+	Next *vtNanNode
+	F    float64
 }
 
 type vtDagLeaf struct{ V interface{} }
